@@ -65,3 +65,22 @@ package open_game_manager
 //@   assume at call NewReadyGroup : constructor-returns-an-object: result0 != nil
 //@   ensures fresh-and-empty: ref(r) != 0 && typeis(r, "*open_game_manager.openGameManager") && OgmWF(r) && fresh(r) && fresh(r.state)
 //@             && r.state.GameCount == 0 && len(r.state.Participants) == 0 && r.state.Timeout == options.Timeout
+
+// "A gate rebuilt from a saved state behaves like the original": the rebuilt manager carries the saved game count and exactly
+// the saved participants, each with its saved index and readiness (keyed by the participant's own id), in objects of its own.
+//@ func NewOpenGameManagerFromState
+//@   property C09
+//@   returns r
+//@   requires 0 <= len(state.Participants) && len(state.Participants) <= 3
+//@   requires all(id, indom(state.Participants, id) ==> state.Participants[id] != nil && state.Participants[id].ID == id)
+//@   requires all(a, all(b, indom(state.Participants, a) && indom(state.Participants, b) && a != b ==> state.Participants[a].Index != state.Participants[b].Index))   // one ready-group slot per participant (the ready group is keyed by index)
+//@   modifies log
+//@   allocates
+//@   assume at call NewReadyGroup : constructor-returns-an-object: result0 != nil
+//@   loop 0 unroll 3
+//@   loop 1 unroll 3
+//@   ensures rebuilt-well-formed: ref(r) != 0 && typeis(r, "*open_game_manager.openGameManager") && OgmWF(r) && fresh(r) && fresh(r.state) && fresh(r.state.Participants)
+//@   ensures same-game-count: r.state.GameCount == state.GameCount && r.state.Timeout == options.Timeout
+//@   ensures exactly-the-saved-participants: len(r.state.Participants) == len(state.Participants) && all(id, indom(r.state.Participants, id) <==> indom(state.Participants, id))
+//@   ensures same-index-and-readiness: all(id, indom(state.Participants, id) ==> fresh(r.state.Participants[id]) && r.state.Participants[id].Index == state.Participants[id].Index
+//@             && r.state.Participants[id].IsReady == state.Participants[id].IsReady)
